@@ -201,6 +201,20 @@ def exec_expr(e, st, names, fns, depth, want_value=False):
                 return [(st, None)]
             if m in ("peek", "peek_next", "at_end", "read_slice", "len"):
                 return [(st, ("peek", m, cur.name, dict(cur.r)))]
+            if m in fns and depth < 2 and (fns[m].get("args") or [{}])[0].get("name") == "self" and fns[m].get("body"):
+                # a cursor method defined in this file (VecCursor::skip(expected) ..): run its body on this cursor
+                callee = fns[m]
+                params = [a["name"] for a in callee["args"] if a.get("name") != "self"]
+                st2 = st
+                recv_name = e["recv"]["p"] if e["recv"].get("e") == "path" else e["recv"]["a"]["p"]
+                sub_names = {"self": names[recv_name]}
+                for pn, a in zip(params, e.get("args") or []):
+                    if a.get("e") == "path" and a["p"] in names:
+                        sub_names[pn] = names[a["p"]]
+                    elif a.get("e") == "path":
+                        v = st.env.get(a["p"])
+                        st2.env[pn] = v if v is not None else ("var", a["p"])
+                return [(x, None) for x in exec_block(callee["body"]["stmts"], st2, sub_names, fns, depth + 1)]
             raise Unknown("cursor method " + m)
         raise Unknown("method " + m)
     if k == "call" and e["f"].get("e") == "path" and lastseg(e["f"]["p"]) in fns and depth < 2:
